@@ -52,11 +52,11 @@ var allOuts = []string{"ok", "rpcerr", "err", "tmo", "cancelled"}
 var fewOuts = []string{"ok", "tmo", "cancelled"}
 
 // every action of RpcCalls.tla; a run that relies on the model must have exercised each
-var rpcActions = []string{"Invoke", "CtxCancel", "DeadlinePass", "CtxDeadline", "SetupExpired", "SetupCall", "SendFromWriteQ",
+var rpcActions = []string{"Invoke", "CtxCancel", "CtxDeadline", "SetupExpired", "SetupCall", "SendFromWriteQ",
 	"CancelCall", "ReturnResult", "ReturnPending", "ClientRecv", "ConnDrop", "MassCancel", "ConnectFail", "Connect",
 	"CliCloseBegin", "RecvHdr", "AcquireMem", "RecvAbort", "GetWorker", "HandlerEnter", "HandlerSkipExpired", "HandlerExit",
 	"SendResponse", "ServerSend", "ServerSendLetsFin", "SrvConnStop", "OrphanRecv", "OrphanDrop", "SrvShutdown", "SrvCloseBegin",
-	"Cut", "SetProxy"}
+	"Cut", "SetProxy", "CliCloseDo", "CutDo", "ProxyDo", "SrvShutdownDo", "SrvCloseDo"}
 
 // ---------------------------------------------------------------------------
 // scenario shapes
@@ -196,6 +196,9 @@ func runBatch(c *core.Ctx, drvPath string, env envCfg, scs []scenario, tag strin
 		return nil, err
 	}
 	defer d.p.Close()
+	if env.Net == "unix" {
+		env.Dir = sockDir(c)
+	}
 	out := filepath.Join(c.Scratch, "trace-"+tag+".ndjson")
 	var resp struct {
 		Error   string `json:"error"`
@@ -289,7 +292,7 @@ type c38State struct {
 // validateBatch validates the traces of a batch; a rejected scenario is localised, re-run
 // in a fresh driver and reported only if the fresh trace is rejected as well.
 func validateBatch(c *core.Ctx, st *c38State, drvPath string, br *batchResult) error {
-	consts := map[string]string{"WORKERS": fmt.Sprint(br.env.MaxWorkers)}
+	consts := traceConsts(br.env.MaxWorkers, br.events)
 	skip := map[int]bool{}
 	for i := range br.hung {
 		skip[i] = true // judged separately (no "end" event)
@@ -341,7 +344,7 @@ func validateBatch(c *core.Ctx, st *c38State, drvPath string, br *batchResult) e
 				break
 			}
 			tr, _ := joinScenarios(rb.events, nil)
-			rv, err := validateTrace(c, "TraceRpcCalls", "TraceRpcCalls.cfg", consts, tr, nil)
+			rv, err := validateTrace(c, "TraceRpcCalls", "TraceRpcCalls.cfg", traceConsts(br.env.MaxWorkers, rb.events), tr, nil)
 			if err != nil {
 				return err
 			}
@@ -363,6 +366,61 @@ func validateBatch(c *core.Ctx, st *c38State, drvPath string, br *batchResult) e
 		skip[bad] = true
 	}
 	return fmt.Errorf("more than 6 rejected scenarios in one batch (%s): giving up", br.env.name())
+}
+
+// traceConsts: the trace specification is instantiated with the server's MaxWorkers and
+// with exactly the call ids that occur (1..3 belong to c1, 4..6 to c2).
+func traceConsts(workers int, evs [][]event) map[string]string {
+	ids := map[int]bool{1: true}
+	for _, s := range evs {
+		for _, e := range s {
+			if id := e.num("id"); id >= 1 && id <= 6 {
+				ids[id] = true
+			}
+		}
+	}
+	var l []int
+	for id := range ids {
+		l = append(l, id)
+	}
+	sort.Ints(l)
+	return map[string]string{"WORKERS": fmt.Sprint(workers), "IDS": setLit(l)}
+}
+
+// splitBatch cuts a batch into units of at most n scenarios (scenarios with few call ids
+// first, so that their units get a small CallIds constant).
+func splitBatch(br *batchResult, n int) []*batchResult {
+	idx := make([]int, len(br.scenarios))
+	maxID := make([]int, len(br.scenarios))
+	for i := range idx {
+		idx[i] = i
+		for _, e := range br.events[i] {
+			id := e.num("id")
+			if id == 4 {
+				id = 3
+			} else if id > 4 {
+				id = 6
+			}
+			if id > maxID[i] {
+				maxID[i] = id
+			}
+		}
+	}
+	sort.SliceStable(idx, func(a, b int) bool { return maxID[idx[a]] < maxID[idx[b]] })
+	var out []*batchResult
+	for k := 0; k < len(idx); k += n {
+		u := &batchResult{env: br.env, hung: map[int][]int{}, rpclog: map[int][]string{}}
+		for _, i := range idx[k:min(k+n, len(idx))] {
+			if h, ok := br.hung[i]; ok {
+				u.hung[len(u.scenarios)] = h
+				u.rpclog[len(u.scenarios)] = br.rpclog[i]
+			}
+			u.scenarios = append(u.scenarios, br.scenarios[i])
+			u.events = append(u.events, br.events[i])
+		}
+		out = append(out, u)
+	}
+	return out
 }
 
 func eventClass(line string) string {
@@ -475,7 +533,7 @@ func runC38(c *core.Ctx) error {
 		{name: "proxy", calls: []int{1, 2, 3}, nc1: 3, workers: 2, memLimit: 3, proxy: 2, ff: []int{2, 3}, cancel: []int{1}, outs: allOuts, orphans: true},
 		{name: "shutdown", calls: []int{1, 2, 3}, nc1: 2, workers: 2, memLimit: 3, closes: 1, cancel: []int{1, 2}, outs: allOuts, shutdown: true, orphans: true},
 	}
-	perProfile := c.Pick(16, 150)
+	perProfile := c.Pick(6, 60)
 	shapes := make([][]scenario, len(profiles))
 	for pi, p := range profiles {
 		pi, p := pi, p
@@ -564,14 +622,27 @@ func runC38(c *core.Ctx) error {
 				return err
 			}
 			results[e] = br
-			if br.crash != "" {
-				return nil
+			if br.crash == "" {
+				st.count(br.events)
 			}
-			st.count(br.events)
-			return validateBatch(c, st, drvPath, br)
+			return nil
 		})
 	}
 	if err := parallel(4, jobs); err != nil {
+		return err
+	}
+	c.Logf("scenarios executed on %d environments", len(envs))
+	jobs = nil
+	for _, br := range results {
+		if br.crash != "" {
+			continue
+		}
+		for _, u := range splitBatch(br, 8) {
+			u := u
+			jobs = append(jobs, func() error { return validateBatch(c, st, drvPath, u) })
+		}
+	}
+	if err := parallel(6, jobs); err != nil {
 		return err
 	}
 	for e, br := range results {
@@ -681,6 +752,9 @@ func runMix(c *core.Ctx, drvPath string, env envCfg, seed int64, params map[stri
 		return nil, resp, race, "", err
 	}
 	defer d.p.Close()
+	if env.Net == "unix" {
+		env.Dir = sockDir(c)
+	}
 	out := filepath.Join(c.Scratch, "mix-"+tag+".ndjson")
 	err = d.p.Call(map[string]any{"op": "mix", "env": env, "seed": seed, "mix": params, "out": out, "watchdogMs": 20000}, &resp)
 	if err != nil {
@@ -792,7 +866,7 @@ func runMixes(c *core.Ctx, st *c38State, drvPath string) error {
 					return "hung/mix", map[string]any{"hung": resp.Hung, "rpclog": resp.RpcLog}, evs, race, nil
 				}
 				trace, n, _ := projectMix(evs)
-				v, err := validateTrace(c, "TraceRpcCalls", "TraceRpcCalls.cfg", map[string]string{"WORKERS": "8"}, trace, nil)
+				v, err := validateTrace(c, "TraceRpcCalls", "TraceRpcCalls.cfg", map[string]string{"WORKERS": "8", "IDS": "{1, 4}"}, trace, nil)
 				if err != nil {
 					return "", nil, nil, race, err
 				}
@@ -877,7 +951,7 @@ func selfTestC38(c *core.Ctx, results []*batchResult) error {
 					}
 					ne["got"] = e.num("id")%6 + 1
 					bad[i] = ne
-					v, err := validateTrace(c, "TraceRpcCalls", "TraceRpcCalls.cfg", map[string]string{"WORKERS": fmt.Sprint(br.env.MaxWorkers)}, toNDJSON(bad), nil)
+					v, err := validateTrace(c, "TraceRpcCalls", "TraceRpcCalls.cfg", map[string]string{"WORKERS": fmt.Sprint(br.env.MaxWorkers), "IDS": "{1, 2, 3, 4, 5, 6}"}, toNDJSON(bad), nil)
 					if err != nil {
 						return err
 					}
@@ -886,7 +960,7 @@ func selfTestC38(c *core.Ctx, results []*batchResult) error {
 					}
 					// corrupt: the call returns twice
 					dup := append(append([]event{}, evs[:i+1]...), evs[i:]...)
-					v, err = validateTrace(c, "TraceRpcCalls", "TraceRpcCalls.cfg", map[string]string{"WORKERS": fmt.Sprint(br.env.MaxWorkers)}, toNDJSON(dup), nil)
+					v, err = validateTrace(c, "TraceRpcCalls", "TraceRpcCalls.cfg", map[string]string{"WORKERS": fmt.Sprint(br.env.MaxWorkers), "IDS": "{1, 2, 3, 4, 5, 6}"}, toNDJSON(dup), nil)
 					if err != nil {
 						return err
 					}
@@ -943,7 +1017,7 @@ func replayC38(c *core.Ctx) error {
 			return nil
 		}
 		trace, n, _ := projectMix(evs)
-		v, err := validateTrace(c, "TraceRpcCalls", "TraceRpcCalls.cfg", map[string]string{"WORKERS": "8"}, trace, nil)
+		v, err := validateTrace(c, "TraceRpcCalls", "TraceRpcCalls.cfg", map[string]string{"WORKERS": "8", "IDS": "{1, 4}"}, trace, nil)
 		if err != nil {
 			return err
 		}
